@@ -188,7 +188,7 @@ func streamC16(r *Rand, n int, o *Out) {
 			// … also through the setters that use the string encoder (username / password)
 			if ni < 2 && err == nil && derr == nil && rr.P(60) {
 				val := rr.Pick([]string{"j\u00f6rg%40home", "é%41", "a%41é", "%C3%A9%20x", "日%2F本", "u%41", "plain", "é", "\ufffd%41"})
-				if !no.trigger(val, "", nil, nil) {
+				if !no.trigger(val, "", nil, nil) && !no.trigger(in, base, du, derr) {
 					k := len(h.urls) - 1
 					st := 1 + rr.N(2)
 					h.Set(k, st, val)
